@@ -68,7 +68,9 @@ def make_create(kind):
     return fn
 
 
-def make_change(kind):
+def make_change(kind, same_name=False):
+    """same_name: the element already carries the type's name, but the type was re-defined since (or the row was edited): applying the
+    type again must still write every value of the type"""
     def fn(ctx):
         st = ctx.load("pandapower.std_types")
         net = pp.create_empty_network()
@@ -85,6 +87,8 @@ def make_change(kind):
         std = c24._std(ctx, req, optn, optc, set(optn) | set(optc))
         net.std_types[tab]["SYM"] = std
         net[tab] = net[tab].astype(object)
+        if same_name:
+            net[tab].at[0, "std_type"] = "SYM"
         before_other = net[tab].loc[1].copy()
         st.change_std_type(net, 0, "SYM", element=tab)
         row = net[tab].loc[0]
@@ -143,6 +147,8 @@ def make_dict_machine():
 def instances(tier):
     out = [Inst(f"create_{k}", make_create(k), nvars=30, samples=2, meta=dict(kind=k)) for k in ("line", "trafo", "trafo3w")]
     out += [Inst(f"change_{k}", make_change(k), nvars=24, samples=2, meta=dict(kind=k)) for k in ("line", "trafo")]
+    out += [Inst(f"change_{k}_same_type_name_redefined", make_change(k, same_name=True), nvars=24, samples=2, meta=dict(kind=k, scenario="element already named after the re-defined type"))
+            for k in ("line", "trafo")]
     out.append(Inst("dict_state_machine", make_dict_machine(), nvars=12, samples=3, raises=(UserWarning,), meta=dict(kind="std type library")))
     return out
 
